@@ -24,6 +24,7 @@ import (
 type Arg struct {
 	Abs bool     `json:"abs"`
 	C   []string `json:"c"`
+	Raw string   `json:"raw,omitempty"` // passed literally (a spelling of the file system root: "/", "//", "/."); C is then ["FSROOT"]
 }
 
 type Step struct {
